@@ -61,7 +61,8 @@ func (w *vhWire) RecvMsg(m interface{}) error {
 
 // vhCutReader hands out its data in pieces whose sizes the environment picks.
 type vhCutReader struct {
-	data []byte
+	data  []byte
+	whole bool // no cuts: hand out as much as fits
 }
 
 func (r *vhCutReader) Read(p []byte) (int, error) {
@@ -72,7 +73,10 @@ func (r *vhCutReader) Read(p []byte) (int, error) {
 	if len(p) < max {
 		max = len(p)
 	}
-	n := verif.Concretize(verif.Int(), 1, max)
+	n := max
+	if !r.whole {
+		n = verif.Concretize(verif.Int(), 1, max)
+	}
 	copy(p, r.data[:n])
 	r.data = r.data[n:]
 	return n, nil
@@ -91,7 +95,12 @@ func VH_C18_framing(k int, viaRead int) {
 	sf := vhFileOver(&src)
 	var recs [][]byte
 	for i := 0; i < k; i++ {
-		r := verif.Bytes(verif.Concretize(verif.Int(), 1, 3))
+		var r []byte
+		if viaRead == 2 {
+			r = verif.Bytes(2) // the short-read variant varies the reads, not the shapes
+		} else {
+			r = verif.Bytes(verif.Concretize(verif.Int(), 1, 3))
+		}
 		n, err := sf.Write(r)
 		verif.Assert(err == nil && n == len(r), "record written")
 		recs = append(recs, r)
@@ -99,7 +108,7 @@ func VH_C18_framing(k int, viaRead int) {
 	verif.Assert(sf.w.Flush() == nil, "flush")
 	wire := &vhWire{}
 	raw := append([]byte(nil), src.Bytes()...)
-	n, err := io.Copy(&Writer{Sender: &vhWireServer{w: wire}}, bufio.NewReaderSize(&vhCutReader{data: raw}, 16))
+	n, err := io.Copy(&Writer{Sender: &vhWireServer{w: wire}}, bufio.NewReaderSize(&vhCutReader{data: raw, whole: viaRead == 2}, 16))
 	verif.Assert(err == nil && int(n) == len(raw), "whole file shipped")
 	var total uint64
 	for _, m := range wire.msgs {
@@ -111,7 +120,7 @@ func VH_C18_framing(k int, viaRead int) {
 
 	var dst bytes.Buffer
 	rd := Reader{Stream: &vhWireClient{w: wire}}
-	if viaRead == 0 {
+	if viaRead != 1 {
 		w, err := rd.WriteTo(&dst)
 		verif.Assert(err == nil && int(w) == len(raw), "whole stream received")
 	} else {
@@ -126,6 +135,9 @@ func VH_C18_framing(k int, viaRead int) {
 		}
 	}
 	back := vhFileOver(&dst)
+	if viaRead == 2 {
+		verif.ShortReads(true) // the decompressing reader may deliver a record's length prefix or payload in pieces
+	}
 	p := make([]byte, 16)
 	for i := range recs {
 		n, err := back.Read(p)
